@@ -27,7 +27,7 @@ import subprocess
 import sys
 from fractions import Fraction
 
-REPO = os.environ.get('QUANTITY_REPO', '/repo')
+REPO = (os.environ.get('QUANTITY_REPO') or '/repo')
 
 
 class Unsupported(Exception):
